@@ -215,3 +215,11 @@ CONTRACTS = [
                                                       'pony.orm.core:Attribute.get_raw_values'], E2E.mc_configs, E2E.mc_case,
              [('conflict_exactly_when_a_column_of_a_read_attribute_was_changed', E2E.mc_spec)], level='bounded', bound=E2E.BOUND_MC),
 ]
+
+
+def _share_row_refresh():
+    # a row fetched again while a read-modify-write of one of its attributes is pending (flushing disabled: collection loads, hooks) must report the foreign change:
+    # replacing the remembered database value silently makes the optimistic check of the later UPDATE pass, and the other transaction's write is lost (contract of C21)
+    from contracts import c21
+    CONTRACTS.extend(c for c in c21.CONTRACTS if c.id == 'Entity._db_set_')
+_share_row_refresh()
